@@ -105,6 +105,29 @@ def fill_level(L, case):
             L.tau[m] = tau
 
 
+def warm_up(L, factor):
+    """perform one throw-away sweep (and end-point evaluation) on the same sweeper / level with a different step size, then restore the node
+    values: a sweeper that caches dt-dependent quantities from an earlier sweep (stale state) then fails the judged sweep"""
+    if not factor:
+        return
+    P = L.prob
+    cp = lambda lst, T: [None if x is None else T(x) for x in lst]  # noqa: E731
+    saved_u, saved_f, saved_tau = cp(L.u, P.dtype_u), cp(L.f, P.dtype_f), cp(L.tau, P.dtype_u)
+    saved_uend = None if L.uend is None else P.dtype_u(L.uend)
+    dt = L.params.dt
+    L.params.dt = dt * factor
+    try:
+        L.sweep.update_nodes()
+        L.sweep.compute_end_point()
+    except Exception:  # noqa: BLE001  (singular node system, solver failure at the other step size: irrelevant for the judged sweep)
+        pass
+    L.params.dt = dt
+    L.u[:], L.f[:], L.tau[:] = saved_u, saved_f, saved_tau
+    L.uend = saved_uend
+    L.status.sweep = 1
+    L.status.unlocked = True
+
+
 def snapshot(L):
     return {
         'u': [None if x is None else np.array(x, copy=True) for x in L.u],
@@ -255,6 +278,9 @@ def prop_sdc(case, r):
     r.check(all(type(x) is P.dtype_u for x in integ), 'integrate-type', 'integrate must return dtype_u')
 
     # ---- one sweep
+    warm_up(L, case.get('warm'))
+    if case.get('warm'):
+        P.calls.clear()  # the call log judges the times of the sweep below only
     try:
         sweep.update_nodes()
     except np.linalg.LinAlgError:
@@ -386,6 +412,7 @@ def sdc_cases(draw, max_nodes=5):
     case['tau'] = draw(S.mat(M, n)) if draw(st.booleans()) else None
     case['coll_update'] = draw(st.booleans())
     case['k'] = draw(st.integers(1, 6))
+    case['warm'] = draw(st.sampled_from([None, None, 0.5, 3.0]))  # throw-away sweep with another step size first (stale-state probe)
     return case
 
 
@@ -582,6 +609,7 @@ def prop_verlet(case, r):
     sc = max(1.0, np.abs(Fold).max(), np.abs(v0).max())
     r.close(np.abs(ip - ep).max(), 1e-12 * sc * M, 'verlet-integrate-pos')
     r.close(np.abs(iv - evl).max(), 1e-12 * sc * M, 'verlet-integrate-vel')
+    warm_up(L, case.get('warm'))
     try:
         sweep.update_nodes()
     except np.linalg.LinAlgError:
@@ -623,11 +651,13 @@ def verlet_cases(draw, max_nodes=5):
     M = nodes['num_nodes']
     n = draw(st.integers(1, 3))
     B = np.array(draw(S.mat(n)))
-    return {
+    case = {
         'nodes': nodes, 'n': n, 'K': ((B @ B.T) / n + 0.2 * np.eye(n)).tolist(), 'g': draw(S.forcing(n)), 'dt': draw(S.log_uniform(-2, 0.3)), 't0': draw(S.small_float(-2, 5)),
         'QI': draw(st.sampled_from(['IE', 'LU', 'MIN-SR-S', 'TRAP', 'PIC'])), 'QE': draw(st.sampled_from(['EE', 'PIC'])), 'X': draw(S.mat(M + 1, n)), 'V': draw(S.mat(M + 1, n)),
         'tau': [[draw(S.small_float()), draw(S.small_float())] for _ in range(M)] if draw(st.booleans()) else None, 'coll_update': draw(st.booleans()),
     }  # fmt: skip
+    case['warm'] = draw(st.sampled_from([None, None, 0.5, 3.0]))
+    return case
 
 
 def known_match(fid, clause, case, failure):
